@@ -21,7 +21,7 @@ from ...text_gen import BLANK_LINE, chunk, cond_chunk, TextBlock
 from ..common import Configuration, CppPortItf, DznPortItf, \
     FacilitiesOrigin, DznElements, Facilities, CppEncapsulee, CppPorts, MultiClientPortCfgFixture, \
     SupportFiles, CppHelperMethods
-from ..port_selection import MultiClientPortCfg
+from ..port_selection import MatchedPorts, MultiClientPortCfg
 from ..types import AdvShellError, RuntimeSemantics, MultiClientCfgError
 
 
@@ -45,10 +45,10 @@ def create_dzn_elements(cfg: Configuration, fct: ast.FileContents,
         if port.direction == ast.PortDirection.PROVIDES:
             # check multi client configuration for this port
             mc_fixture = check_multiclient_cfg(cfg.ports_cfg.multiclient, port.name, itf, fct)
-            provides_ports.append(DznPortItf(port, itf, all_ports.value[port.name], mc_fixture))
+            provides_ports.append(DznPortItf(port, itf, lookup_semantics(all_ports, port), mc_fixture))
         else:
             if not port.injected.value:  # filter out injected required ports
-                requires_ports.append(DznPortItf(port, itf, all_ports.value[port.name]))
+                requires_ports.append(DznPortItf(port, itf, lookup_semantics(all_ports, port)))
 
     # post check whether a multiclient port configuration has actually been matched
     if cfg.ports_cfg.multiclient:
@@ -57,6 +57,14 @@ def create_dzn_elements(cfg: Configuration, fct: ast.FileContents,
                                 'for Multiclient port configuration')
 
     return DznElements(fct, encapsulee, Fqn(scope_fqn), provides_ports, requires_ports)
+
+
+def lookup_semantics(matched_ports: MatchedPorts, port: ast.Port) -> RuntimeSemantics:
+    """Get the runtime semantics that the user configuration assigns to the specified port.
+    A port that is left without semantics by the configuration is reported as an error."""
+    if port.name not in matched_ports.value:
+        raise AdvShellError(f'Port "{port.name}" is not configured with STS or MTS runtime semantics')
+    return matched_ports.value[port.name]
 
 
 def check_multiclient_cfg(cfg: Optional[MultiClientPortCfg],
